@@ -567,3 +567,36 @@ def validation_has_no_memory(which: int, p: int, lo: Optional[int], hi: Optional
              lambda: "after a permissive field accepted %r, the strict field's verdict is wrong (expected accept=%r)" % (v, want))
         hold("second", verdict(strict) == want, "verdict not repeatable")
     return True
+
+
+# --------------------------------------------------------------------------- derived string fields + length bounds
+@obligation(prop="C05", sites=("idem",), regions=("canonical_form_longer_than_max_len",), budget={"quick": 120, "thorough": 300},
+            encodes=["cincoconfig.fields.net_field.IPv4NetworkField._validate", "cincoconfig.fields.file_field.FilenameField._validate"],
+            stubs=("FakeFS",), examples=({"which": 0, "hi": None}, {"which": 1, "hi": None}),
+            what="string-derived fields that return a CANONICAL form (IPv4Network adds the prefix, Filename resolves "
+                 "against the start directory) combined with max_len (symbolic): an accepted result validates again")
+def canonical_form_vs_max_len(which: int, hi: Optional[int]) -> bool:
+    """
+    pre: 0 <= which <= 2
+    pre: hi is None or 0 <= hi <= 20
+    post: _
+    """
+    cfg = _cfg()
+    fs = FakeFS(files={"/abs/f.txt": b"x"}, dirs=["/abs"])
+    with fs.patched():
+        if which == 0:
+            field, value = IPv4NetworkField(max_len=hi), "10.0.0.0"
+        elif which == 1:
+            field, value = FilenameField(startdir="/abs", max_len=hi), "f.txt"
+        else:
+            field, value = IPv4AddressField(max_len=hi), "10.0.0.1"
+        try:
+            r = field.validate(cfg, value)
+        except ValueError:
+            skip("rejected by the length bound")
+        known("canonical_form_longer_than_max_len", hi is not None and len(r) > hi)
+        try:
+            r2 = field.validate(cfg, r)
+        except ValueError:
+            return hold("idem", False, lambda: "accepted result %r is rejected when validated again (max_len=%r)" % (r, hi))
+        return hold("idem", r2 == r, "not idempotent")
